@@ -14,7 +14,7 @@ from mc.spaces import split_list
 
 ID = "C07"
 MANIFEST = {"engine": "E1"}
-LABS = ("bin", "neg", "cancel", "generic", "binint")
+LABS = ("bin", "neg", "cancel", "generic", "binint", "tiny")
 
 
 def prepare(tier, seed):
@@ -44,6 +44,9 @@ def units(tier, seed):
     out += [{"stage": "dag", "p": W, "codes": c, "labs": ["bin"]} for c in split_list(_g.wide_sparse_codes("dag"), 8)]
     out += [{"stage": "pdag", "p": W, "codes": c} for c in split_list(_g.wide_sparse_codes("pdag"), 16)]
     out.append({"stage": "dag", "p": W, "codes": [G.encode(W, ch, [0] * W) for ch in _g.wide_targeted()], "labs": ["bin", "generic"]})
+    # 70-node graphs with edges on node indices >= 64
+    out.append({"stage": "dag", "p": _g.BIG_P, "codes": _g.big_codes("dag"), "labs": ["bin", "generic"]})
+    out.append({"stage": "pdag", "p": _g.BIG_P, "codes": _g.big_codes("pdag")})
     return out
 
 
@@ -68,14 +71,14 @@ def check_dag(p, code, lab):
     return fails, len(want)
 
 
-def check_pdag(p, code, wide):
+def check_pdag(p, code, wide, lab="pdag"):
     ch, und = G.decode(p, code)
     if not G.is_acyclic(p, ch):
         return None
     fails = []
     E = _g.exts(p, ch, und)
     want = _g.dags_pats(p, E)
-    P = _g.pdag_matrix(p, ch, und)
+    P = _g.pdag_any(p, ch, und, lab)
     r = _g.call(U.all_dags, P.copy())
     ncalls = 1
     if r[0] != "ok":
@@ -178,8 +181,8 @@ def run_unit(unit):
     else:
         codes = unit["codes"] if "codes" in unit else range(unit["lo"], unit["hi"])
         wide = "all" if p <= 3 else ("near" if p == 4 else "same")
-        for code in codes:
-            res = check_pdag(p, code, wide)
+        for code, lab in ((c, l) for c in codes for l in ("pdag",)):
+            res = check_pdag(p, code, wide, lab)
             if res is None:
                 continue
             fails, nE, ncalls = res
@@ -191,7 +194,7 @@ def run_unit(unit):
                 acc.nontrivial += 1
             acc.outcome(["ext", nE])
             for sig, msg in fails:
-                acc.fail("pdag", {"p": p, "code": code, "wide": wide}, sig, msg)
+                acc.fail("pdag", {"p": p, "code": code, "wide": wide, "lab": lab}, sig, msg)
     return acc.out()
 
 
@@ -201,7 +204,7 @@ def replay(kind, case):
     if kind == "dag":
         res = check_dag(case["p"], case["code"], case["lab"])
     else:
-        res = check_pdag(case["p"], case["code"], case.get("wide", "same"))
+        res = check_pdag(case["p"], case["code"], case.get("wide", "same"), case.get("lab", "pdag"))
     return res[0] if res else []
 
 
@@ -211,7 +214,7 @@ def describe(tier, seed):
         "rule": "mec (with and without the chain shortcut) on every labelled DAG with p<=4 under 5 weight labelings and +-1 sign assignments (quick: plus 5-node DAGs "
                 "with <=4 edges; thorough: all 29,281 DAGs at p=5, 6-node DAGs with <=5 edges); all_dags on every PDAG with acyclic "
                 "directed part (p<=4 quick, p=5 and sparse p=6 thorough); is_consistent_extension(G,P) for every DAG G (p<=3), every G "
-                "with P's skeleton or a skeleton one edge away (p=4), every G with P's skeleton (p>=5); chains to p=8 (quick) / 12 (thorough); wide graphs: every 10-node DAG / PDAG with <=2 edges and 80 targeted colliders mixing node indices below and above 8. "
+                "with P's skeleton or a skeleton one edge away (p=4), every G with P's skeleton (p>=5); chains to p=8 (quick) / 12 (thorough); 7 graphs on 70 nodes whose edges sit on node indices >= 64 (collider, chains, fork, PDAGs with and without extension); wide graphs: every 10-node DAG / PDAG with <=2 edges and 80 targeted colliders mixing node indices below and above 8. "
                 "non-trivial: class size / extension count != 1",
         "exhaustive": True,
         "bounds": {"p_exhaustive": 5 if tier == "thorough" else 4, "chains_to": 12 if tier == "thorough" else 8},
